@@ -36,10 +36,12 @@ def run(ctx):
                        "virtual clock of testing/synctest; whole seconds, no step exactly on a second boundary",
                        "tokens rank-compressed through a 16-position boundary embedding; scripted TokenGenerator"]
     if ctx.tier == "quick":
-        lc.model_check(ctx, ["MC_c08a", "MC_c08b_quick"], timeout=600)
+        lc.model_check(ctx, ["MC_c08a", "MC_c08b_quick", "MC_c08r"], timeout=600)
+        lc.negative_control(ctx, "MC_c08r_neg", "ReadyImpliesActive")
         lc.record_and_validate(ctx, "TestRecordC08", {"VERIF_TRACES": 100, "VERIF_NT_FIXED": 1}, timeout_tlc=600, label="record/validate")
     else:
-        lc.model_check(ctx, ["MC_c08a", "MC_c08a_t", "MC_c08b"], timeout=2400)
+        lc.model_check(ctx, ["MC_c08a", "MC_c08a_t", "MC_c08b", "MC_c08r"], timeout=2400)
+        lc.negative_control(ctx, "MC_c08r_neg", "ReadyImpliesActive")
         lc.record_and_validate(ctx, "TestRecordC08", {"VERIF_TRACES": 1200, "VERIF_SYSLEN": 4}, timeout_go=1500, timeout_tlc=2400,
                                label="record/validate")
     return "model_checking"
